@@ -179,7 +179,11 @@ def flip_json_hex(path, rng, pick):
         doc = json.load(f)
     obj, key = pick(doc)
     b = bytearray(bytes.fromhex(obj[key]))
-    b[rng.randrange(len(b))] ^= 1 << rng.randrange(8)
+    # (a key's leading byte only says how the point is written - 04 -> 06 is the same point
+    # in another notation when its y is even - and is neither signed nor hashed: the flip
+    # goes into the coordinates)
+    lo = 1 if key == "key" and len(b) in (33, 65) else 0
+    b[rng.randrange(lo, len(b))] ^= 1 << rng.randrange(8)
     obj[key] = bytes(b).hex()
     with open(path, "w") as f:
         json.dump(doc, f)
